@@ -692,88 +692,178 @@ func dec5(in []int64) in5 {
 	return x
 }
 
-// exec5 realises every key vector as a real job (podgroup + pods on a node, in
-// a real cache), opens a session with the REAL plugins named by the layout and
-// returns the JobOrderFn matrix.  The keys the comparators read are read back
-// from the real objects and must be the keys of the case.
-//   priority -> PriorityClass value; share -> number of running 1-cpu pods
-//   (drf share = allocated cpu / 1000 cpu, monotone in it); ready -> minMember =
-//   running (ready) or running+1 (not ready); deadline -> sla-waiting-time.
-func exec5(x in5) []int64 {
-	if x.role != 0 {
-		panic("harness: only role 0 (jobs) is driven through the shipped plugins")
-	}
-	tc := &uthelper.TestCommonStruct{Name: "c11"}
-	tc.Nodes = []*v1.Node{util.BuildNode("n1", api.BuildResourceList("1000", "1000Gi", []api.ScalarResource{{Name: "pods", Value: "1000"}}...), nil)}
-	tc.Queues = []*schedulingv1beta1.Queue{util.BuildQueue("q1", 1, nil)}
-	seenPrio := map[int64]bool{}
-	for _, k := range x.ks {
-		if k.share%1000 != 0 || k.share < 0 {
-			panic("harness: share key must be a multiple of 1000 millicpu")
-		}
-		running := k.share / 1000
-		minAvail := running
-		if !k.ready {
-			minAvail = running + 1
-		}
-		pgName := "pg-" + uidStr(k.uid)
-		pcName := fmt.Sprintf("pc-%d", k.prio)
-		if !seenPrio[k.prio] {
-			seenPrio[k.prio] = true
-			tc.PriClass = append(tc.PriClass, util.BuildPriorityClass(pcName, int32(k.prio)))
-		}
-		pg := util.BuildPodGroupWithPrio(pgName, "ns", "q1", int32(minAvail), nil, schedulingv1beta1.PodGroupInqueue, pcName)
-		pg.CreationTimestamp = mtime(k.ctime)
-		if k.deadline != nil {
-			if *k.deadline <= k.ctime {
-				panic("harness: deadline must lie after the creation time")
-			}
-			pg.Annotations = map[string]string{"sla-waiting-time": fmt.Sprintf("%ds", *k.deadline-k.ctime)}
-		}
-		tc.PodGroups = append(tc.PodGroups, pg)
-		for p := int64(0); p < running; p++ {
-			tc.Pods = append(tc.Pods, util.BuildPod("ns", fmt.Sprintf("%s-w-%d", pgName, p), "n1", v1.PodRunning,
-				api.BuildResourceList("1", "0"), pgName, nil, nil))
-		}
-		// one pending pod so that every job has something left to schedule
-		tc.Pods = append(tc.Pods, util.BuildPod("ns", fmt.Sprintf("%s-w-%d", pgName, running), "", v1.PodPending,
-			api.BuildResourceList("1", "0"), pgName, nil, nil))
-	}
+// real tiers for a layout of plugin kinds; setEn selects the enable flag of the role
+func realTiers(kinds layout[int64], setEn func(o *conf.PluginOption, p *bool)) []conf.Tier {
 	var tiers []conf.Tier
-	for i, t := range x.kinds {
+	for i, t := range kinds {
 		tier := conf.Tier{}
 		for j, sl := range t {
 			name, ok := kindName[sl.ans]
 			if !sl.reg || !ok {
 				name = fmt.Sprintf("absent-%d-%d", i, j) // no builder: nothing is registered under this name
 			}
-			tier.Plugins = append(tier.Plugins, conf.PluginOption{Name: name, EnabledJobOrder: enPtr(sl.en)})
+			o := conf.PluginOption{Name: name}
+			setEn(&o, enPtr(sl.en))
+			tier.Plugins = append(tier.Plugins, o)
 		}
 		tiers = append(tiers, tier)
 	}
-	ssn := tc.RegisterSession(tiers, nil)
-	n := len(x.ks)
-	jobs := make([]*api.JobInfo, n)
-	for i, k := range x.ks {
-		j := ssn.Jobs[api.JobID("ns/pg-"+uidStr(k.uid))]
-		if j == nil {
-			panic("harness: job not in session")
-		}
-		jobs[i] = j
-		var dl *int64
-		if j.WaitingTime != nil {
-			d := j.CreationTimestamp.Unix() - mtime(0).Unix() + int64(*j.WaitingTime/time.Second)
-			dl = &d
-		}
-		gotKeys := fmt.Sprint(j.CreationTimestamp.Unix()-mtime(0).Unix(), j.Priority, j.IsReady(), int64(j.Allocated.MilliCPU), eOptZ(dl))
-		wantKeys := fmt.Sprint(k.ctime, k.prio, k.ready, k.share, eOptZ(k.deadline))
-		if gotKeys != wantKeys {
-			panic("harness: the real job does not carry the keys of the case: got " + gotKeys + " want " + wantKeys)
-		}
+	return tiers
+}
+
+func checkInt32(v int64) int32 {
+	if v < -(1<<31) || v > (1<<31)-1 {
+		panic("harness: priority outside int32")
 	}
-	m := matB(n, func(a, b int) bool { return ssn.JobOrderFn(jobs[a], jobs[b]) })
-	framework.CloseSession(ssn)
-	return m
+	return int32(v)
+}
+
+// matrix of the session order function on all ordered pairs, and the pop order
+// (positions) of a util.PriorityQueue built on it after pushing the objects in
+// the given order
+func matAndPops(objs []interface{}, less api.LessFn) ([]int64, []int64) {
+	n := len(objs)
+	m := matB(n, func(a, b int) bool { return less(objs[a], objs[b]) })
+	pos := map[interface{}]int64{}
+	q := util.NewPriorityQueue(less)
+	for i, o := range objs {
+		pos[o] = int64(i)
+		q.Push(o)
+	}
+	pops := []int64{}
+	for !q.Empty() {
+		pops = append(pops, pos[q.Pop()])
+	}
+	if len(pops) != n {
+		panic("the priority queue lost or duplicated an element")
+	}
+	return m, pops
+}
+
+// exec5 realises every key vector as a real object, opens a session with the
+// REAL plugins named by the layout and returns the order matrix and the pop
+// order.  The keys the comparators read are read back from the real objects
+// and must be the keys of the case.
+//
+//	role 0, jobs through ssn.JobOrderFn: podgroup + pods on a node in a real
+//	  cache; priority -> PriorityClass value; share -> number of running 1-cpu
+//	  pods (drf share = allocated cpu / node cpu, monotone in it; the node has
+//	  exactly the cpu in use, so a single job with running pods has share 1);
+//	  ready -> minMember = running (ready) or running+1; deadline -> sla-waiting-time
+//	role 2, tasks through ssn.TaskOrderFn: api.NewTaskInfo of a pod with
+//	  Spec.Priority, name with / without numeric index
+//	role 3, sub-jobs through ssn.SubJobOrderFn: SubJobInfo{Priority, MatchIndex
+//	  (in the ctime field), MinAvailable 0 (ready) / 1 (not ready)}
+func exec5(x in5) ([]int64, []int64) {
+	n := len(x.ks)
+	objs := make([]interface{}, n)
+	switch x.role {
+	case 0:
+		tc := &uthelper.TestCommonStruct{Name: "c11"}
+		total := int64(0)
+		for _, k := range x.ks {
+			total += k.share / 1000
+		}
+		if total == 0 {
+			total = 1
+		}
+		tc.Nodes = []*v1.Node{util.BuildNode("n1", api.BuildResourceList(strconv.FormatInt(total, 10), "1000Gi", []api.ScalarResource{{Name: "pods", Value: "1000"}}...), nil)}
+		tc.Queues = []*schedulingv1beta1.Queue{util.BuildQueue("q1", 1, nil)}
+		seenPrio := map[int64]bool{}
+		for _, k := range x.ks {
+			if k.share%1000 != 0 || k.share < 0 {
+				panic("harness: share key must be a multiple of 1000 millicpu")
+			}
+			running := k.share / 1000
+			minAvail := running
+			if !k.ready {
+				minAvail = running + 1
+			}
+			pgName := "pg-" + uidStr(k.uid)
+			pcName := fmt.Sprintf("pc-%d", k.prio)
+			if !seenPrio[k.prio] {
+				seenPrio[k.prio] = true
+				tc.PriClass = append(tc.PriClass, util.BuildPriorityClass(pcName, checkInt32(k.prio)))
+			}
+			pg := util.BuildPodGroupWithPrio(pgName, "ns", "q1", int32(minAvail), nil, schedulingv1beta1.PodGroupInqueue, pcName)
+			pg.CreationTimestamp = mtime(k.ctime)
+			if k.deadline != nil {
+				if *k.deadline <= k.ctime {
+					panic("harness: deadline must lie after the creation time")
+				}
+				pg.Annotations = map[string]string{"sla-waiting-time": fmt.Sprintf("%ds", *k.deadline-k.ctime)}
+			}
+			tc.PodGroups = append(tc.PodGroups, pg)
+			for p := int64(0); p < running; p++ {
+				tc.Pods = append(tc.Pods, util.BuildPod("ns", fmt.Sprintf("%s-w-%d", pgName, p), "n1", v1.PodRunning,
+					api.BuildResourceList("1", "0"), pgName, nil, nil))
+			}
+			// one pending pod so that every job has something left to schedule
+			tc.Pods = append(tc.Pods, util.BuildPod("ns", fmt.Sprintf("%s-w-%d", pgName, running), "", v1.PodPending,
+				api.BuildResourceList("1", "0"), pgName, nil, nil))
+		}
+		ssn := tc.RegisterSession(realTiers(x.kinds, func(o *conf.PluginOption, p *bool) { o.EnabledJobOrder = p }), nil)
+		for i, k := range x.ks {
+			j := ssn.Jobs[api.JobID("ns/pg-"+uidStr(k.uid))]
+			if j == nil {
+				panic("harness: job not in session")
+			}
+			objs[i] = j
+			var dl *int64
+			if j.WaitingTime != nil {
+				d := j.CreationTimestamp.Unix() - mtime(0).Unix() + int64(*j.WaitingTime/time.Second)
+				dl = &d
+			}
+			gotKeys := fmt.Sprint(j.CreationTimestamp.Unix()-mtime(0).Unix(), j.Priority, j.IsReady(), int64(j.Allocated.MilliCPU), eOptZ(dl))
+			wantKeys := fmt.Sprint(k.ctime, k.prio, k.ready, k.share, eOptZ(k.deadline))
+			if gotKeys != wantKeys {
+				panic("harness: the real job does not carry the keys of the case: got " + gotKeys + " want " + wantKeys)
+			}
+		}
+		m, pops := matAndPops(objs, ssn.JobOrderFn)
+		framework.CloseSession(ssn)
+		return m, pops
+	case 2:
+		ssn := framework.OpenSession(mockCache, realTiers(x.kinds, func(o *conf.PluginOption, p *bool) { o.EnabledTaskOrder = p }), nil)
+		for i, k := range x.ks {
+			name := "job-" + uidStr(k.uid) + "-x7z"
+			if k.pidx != nil {
+				if *k.pidx < 0 {
+					panic("harness: pod index must be >= 0")
+				}
+				name = fmt.Sprintf("job-%s-%d", uidStr(k.uid), *k.pidx)
+			}
+			pr := checkInt32(k.prio)
+			pod := util.BuildPodWithPriority("ns", name, "", v1.PodPending, api.BuildResourceList("1", "0"), "pg", nil, nil, &pr)
+			pod.UID = "u-placeholder"
+			pod.CreationTimestamp = mtime(k.ctime)
+			ti := api.NewTaskInfo(pod)
+			ti.UID = api.TaskID(uidStr(k.uid))
+			if int64(ti.Priority) != k.prio || k.ready || k.share != 0 || k.deadline != nil {
+				panic("harness: the real task does not carry the keys of the case")
+			}
+			objs[i] = ti
+		}
+		m, pops := matAndPops(objs, ssn.TaskOrderFn)
+		framework.CloseSession(ssn)
+		return m, pops
+	case 3:
+		ssn := framework.OpenSession(mockCache, realTiers(x.kinds, func(o *conf.PluginOption, p *bool) { o.EnabledSubJobOrder = p }), nil)
+		for i, k := range x.ks {
+			sj := &api.SubJobInfo{UID: api.SubJobID(uidStr(k.uid)), MatchIndex: int(k.ctime), Priority: checkInt32(k.prio)}
+			if !k.ready {
+				sj.MinAvailable = 1
+			}
+			if sj.IsReady() != k.ready || k.share != 0 || k.deadline != nil || k.pidx != nil {
+				panic("harness: the real sub-job does not carry the keys of the case")
+			}
+			objs[i] = sj
+		}
+		m, pops := matAndPops(objs, ssn.SubJobOrderFn)
+		framework.CloseSession(ssn)
+		return m, pops
+	}
+	panic("harness: unknown role")
 }
 
 func encKItems(ks []kitem) []int64 {
@@ -993,7 +1083,8 @@ func run(sel int, in []int64) []int64 {
 	case 4:
 		return run4(in)
 	case 5:
-		return cat(tag(1), exec5(dec5(in)))
+		m, pops := exec5(dec5(in))
+		return cat(tag(1), m, tag(2), eList(pops))
 	case 7:
 		return run7(in)
 	case 8:
@@ -1144,7 +1235,7 @@ func genVote(universe int) func(*vh.Rng) vote {
 }
 
 func genBool(p int) func(*vh.Rng) bool { return func(r *vh.Rng) bool { return r.Chance(p, 10) } }
-func genVoteZ(r *vh.Rng) int64       { return int64(vh.Pick(r, []int{0, 0, 0, 1, 1, -1, 2, -3})) }
+func genVoteZ(r *vh.Rng) int64         { return int64(vh.Pick(r, []int{0, 0, 0, 1, 1, -1, 2, -3})) }
 func genOptErr(r *vh.Rng) *int64 {
 	if r.Chance(7, 10) {
 		return nil
@@ -1305,30 +1396,88 @@ func gen(rng *vh.Rng, n int, emit func(id string, sel int, in []int64, kind stri
 		emit(fmt.Sprintf("orders-%d", i), 4, in, []string{"orders/pod-index-all", "orders/pod-index-none", "orders/pod-index-mixed"}[kind],
 			ni >= 3 && c1 >= 1, nil)
 	}
-	// (f) the shipped plugins' job comparators on real jobs
+	// (f) the shipped plugins' comparators on real jobs / tasks / sub-jobs, keys
+	// biased to the boundaries: int32 extremes, pairs exactly and more than 2^31
+	// apart, system-critical and negative priority classes, shares 0 / whole node
+	// / equal, deadlines absent / equal, gang both ready / neither
 	r = rng.Fork()
-	// every such case builds a scheduler cache of its own (informers stay alive): bounded
+	// a role-0 case builds a scheduler cache of its own (informers stay alive): bounded
 	nReal := n/12 + 2
 	if nReal > 1500 {
 		nReal = 1500
 	}
-	for i := 0; i < nReal; i++ {
-		nj := r.Range(2, 4)
+	prioEdge := []int64{0, 0, 1, -1, 5, 10, 1<<31 - 1, -(1 << 31), 1<<31 - 2, -(1 << 31) + 1, 2000001000, 2000000000,
+		1000000000, -1500000000, -2000000000, 147483648, 147483647, -147483648, 1 << 30, -(1 << 30)}
+	genPrio := func(base []int64) int64 {
+		switch r.Intn(8) {
+		case 0:
+			return int64(r.Range(-3, 12))
+		case 1, 2:
+			if len(base) > 0 { // exactly 2^31 - 1, 2^31 or 2^31 + 1 away from an earlier key, or equal to it
+				v := base[r.Intn(len(base))] + int64(vh.Pick(r, []int{0, 1, -1}))*((1<<31)+int64(r.Range(-1, 1)))
+				if v >= -(1<<31) && v <= (1<<31)-1 {
+					return v
+				}
+			}
+		}
+		return vh.Pick(r, prioEdge)
+	}
+	genKs := func(role int64) []kitem {
+		nj := vh.Pick(r, []int{2, 3, 3, 3, 4, 4, 5})
 		ks := []kitem{}
+		prios := []int64{}
+		sameReady, readyAll := r.Chance(1, 4), r.Chance(1, 2)
+		sameShare, shareAll := r.Chance(1, 4), int64(r.Range(0, 2))*1000
+		pidxKind := vh.Pick(r, []int{0, 0, 1})
 		for j := 0; j < nj; j++ {
-			k := kitem{item: item{ctime: int64(r.Range(0, 2)), uid: int64(j + 1 + 10*r.Intn(3))},
-				prio: int64(vh.Pick(r, []int{0, 0, 5, 10})), ready: r.Chance(1, 2), share: int64(r.Range(0, 3)) * 1000}
-			if r.Chance(1, 2) {
-				d := k.ctime + int64(vh.Pick(r, []int{1, 2, 3, 60}))
-				k.deadline = &d
+			k := kitem{item: item{ctime: int64(r.Range(0, 2)), uid: int64(j + 1 + 10*r.Intn(3))}}
+			k.prio = genPrio(prios)
+			prios = append(prios, k.prio)
+			if role != 2 {
+				k.ready = r.Chance(1, 2)
+				if sameReady {
+					k.ready = readyAll
+				}
+			}
+			if role == 0 {
+				k.share = int64(vh.Pick(r, []int{0, 0, 1, 1, 2, 3})) * 1000
+				if sameShare {
+					k.share = shareAll
+				}
+				if r.Chance(1, 2) {
+					d := k.ctime + int64(vh.Pick(r, []int{1, 2, 3, 60}))
+					if r.Chance(1, 3) { // equal deadlines from different creation times
+						d = 3
+					}
+					k.deadline = &d
+				}
+			}
+			if role == 2 && pidxKind == 0 {
+				v := int64(r.Range(0, 2))
+				k.pidx = &v
 			}
 			ks = append(ks, k)
 		}
-		sh := genShape(r)
-		kinds := genLayout(r, sh, func(r *vh.Rng) int64 { return int64(r.Range(1, 4)) })
+		return ks
+	}
+	for i := 0; i < nReal; i++ {
+		ks := genKs(0)
+		kinds := genLayout(r, genShape(r), func(r *vh.Rng) int64 { return int64(vh.Pick(r, []int{1, 1, 1, 2, 3, 4})) })
 		c1, _ := activeCount(kinds)
 		in := cat([]int64{0}, encKItems(ks), encLayout(kinds, eZ))
-		emit(fmt.Sprintf("realcmp-%d", i), 5, in, "orders/shipped-plugins-jobs", nj >= 3 && c1 >= 1, nil)
+		emit(fmt.Sprintf("realcmp-job-%d", i), 5, in, "orders/shipped-plugins-jobs", len(ks) >= 3 && c1 >= 1, nil)
+	}
+	for i := 0; i < n/6+2; i++ {
+		role := int64(vh.Pick(r, []int{2, 3}))
+		ks := genKs(role)
+		kinds := genLayout(r, genShape(r), func(r *vh.Rng) int64 { return int64(vh.Pick(r, []int{1, 1, 1, 1, 2, 2, 3, 4})) })
+		c1, _ := activeCount(kinds)
+		in := cat([]int64{role}, encKItems(ks), encLayout(kinds, eZ))
+		kind := "orders/shipped-plugins-tasks"
+		if role == 3 {
+			kind = "orders/shipped-plugins-subjobs"
+		}
+		emit(fmt.Sprintf("realcmp-r%d-%d", role, i), 5, in, kind, len(ks) >= 3 && c1 >= 1, nil)
 	}
 	// (g) priority queue histories
 	r = rng.Fork()
